@@ -413,15 +413,11 @@ lp_id_t CountDirections(lp_id_t from, struct topology *topology)
 
 		case TOPOLOGY_HEXAGON:
 			assert(topology->geometry == TOPOLOGY_HEXAGON);
-			neighbors = 6;
-			y = from / topology->width;
-			x = from - y * topology->width;
-			if(y == 0 || y == topology->height - 1)
-				neighbors -= x == 0 ? 1 : 2;
-			if(x == 0)
-				neighbors -= 3 - 2 * (y & 1U);
-			if(x == topology->width - 1)
-				neighbors -= 3 - 2 * (1 - (y & 1U));
+			// count the directions which lead to a valid region: this is correct also for
+			// single-row/single-column grids and for the corners of an odd bottom row
+			neighbors = 0;
+			for(unsigned i = 0; i < DIRECTION_RANDOM; i++)
+				neighbors += get_neighbor_hexagon(from, topology, i) != INVALID_DIRECTION;
 			return neighbors;
 
 		case TOPOLOGY_TORUS:
@@ -433,9 +429,14 @@ lp_id_t CountDirections(lp_id_t from, struct topology *topology)
 			neighbors = 4;
 			y = from / topology->width;
 			x = from - y * topology->width;
-			if(x == 0 || x == topology->width - 1)
+			// the two borders of a dimension coincide when that dimension has size 1
+			if(x == 0)
 				neighbors--;
-			if(y == 0 || y == topology->height - 1)
+			if(x == topology->width - 1)
+				neighbors--;
+			if(y == 0)
+				neighbors--;
+			if(y == topology->height - 1)
 				neighbors--;
 			return neighbors;
 
